@@ -77,7 +77,6 @@ vars == <<md, inCall, kw, ident, base, opened, gaps, cells0, ncalls, nopens, las
 
 Ev(op, o, vm, nm, kind, start, mdAfter, kwx, idx) ==
     [op |-> op, o |-> o, vmode |-> vm, nmode |-> nm, kind |-> kind, start |-> start, md |-> mdAfter, kw |-> kwx, ident |-> idx]
-NoEv == Ev("init", Zero, "", "", "", Zero, Zero, Zero, Zero)
 Log(e) == /\ last' = e
           /\ hist' = IF KeepHist THEN Append(hist, e) ELSE hist
 
